@@ -26,7 +26,7 @@ import sigtree as st
 from common import frac_str, run_driver
 
 TRUSTED = [
-    'Lean 4.33.0 kernel; axioms of every theorem in Props/C15.lean within {propext, Classical.choice, Quot.sound}',
+    'Lean 4.33.0 kernel; axioms of every theorem in Props/C15*.lean within {propext, Classical.choice, Quot.sound}',
     'harness/clmodel.py (serialisation of coniclifts constraints, their values by definition), harness/props/c15.py',
     'ECOS for: existence of auxiliary values in the audit (points are kept 1e-3 away from the boundary), suppfunc, emptiness',
 ]
